@@ -9,6 +9,7 @@
 package c04
 
 import (
+	"errors"
 	"bytes"
 	"fmt"
 	"math"
@@ -805,6 +806,17 @@ func check(fc *fontCase) verdict {
 			return fmt.Sprintf("glyph %d: charstring %x (defaultWidthX=%v nominalWidthX=%v)", gi, code, fd.DefaultWidthX, fd.NominalWidthX)
 		}
 		if rerr != nil {
+			var te *reft2.Error
+			if errors.As(rerr, &te) && te.Kind == reft2.KUnspecified && maybeBig && strings.Contains(rerr.Error(), "derived operand") {
+				// every operand in the charstring is in range; the closing
+				// delta a flex operator leaves implicit is not (a jump of
+				// 32768 units or more).  TN5177 does not say whether an
+				// interpreter forms that sum or returns to the start
+				// coordinate, so the charstring is neither right nor wrong by
+				// the specification: the reference abstains on this glyph.
+				lab["bigdelta-implicit-flex-delta(reference abstains)"] = true
+				continue
+			}
 			v.fail = fmt.Sprintf("%s is not a legal Type 2 charstring: %v", ctx(), rerr)
 			return v
 		}
